@@ -159,6 +159,16 @@ func opProof(_ *HState, a Event) Event {
 	}
 	sort.Ints(matched)
 	blk := mkBlock(n, uint32(gInt(a, "salt")))
+	var fitems [][]byte
+	if desc := gList(a, "desc"); desc != nil {
+		// a block with intra-block spends in the given order; the filter watches script items and updates itself
+		txs := buildTxs(desc, gInt(a, "salt"))
+		blk = wire.NewMsgBlock(wire.NewBlockHeader(1, &chainhash.Hash{1, 2, 3}, &chainhash.Hash{}, 0x1d00ffff, uint32(gInt(a, "salt"))))
+		for _, x := range gList(a, "order") {
+			blk.AddTransaction(txs[int(x.(float64))])
+		}
+		fitems = filterItems(a, txs)
+	}
 	e := with(a)
 	// merkle tree, level by level: tree[h][pos], pairs[h][pos] = the 64 bytes hashed (h >= 1).
 	var tree [][][]int
@@ -214,6 +224,13 @@ func opProof(_ *HState, a Event) Event {
 		m1, i1 := merkleblock.NewMerkleBlockWithTxnSet(block, set)
 		e["txnset"] = msgEvent(m1, i1)
 		mkFilter := func() *bloom.Filter {
+			if fitems != nil {
+				f := bloom.LoadFilter(wire.NewMsgFilterLoad(make([]byte, 4096), 3, 99, wire.BloomUpdateType(gInt(a, "flags"))))
+				for _, it := range fitems {
+					f.Add(it)
+				}
+				return f
+			}
 			f := bloom.NewFilter(uint32(len(set)+1), 12345, 1e-9, wire.BloomUpdateNone)
 			for _, h := range set {
 				f.AddHash(h)
@@ -313,6 +330,20 @@ func runC11(c *Ctx) {
 			}
 			proof(n, sc)
 		}
+	}
+	// filter-induced subsets on blocks with intra-block spends, in topological / reverse / random order:
+	// the two filter-driven builders must agree on message and index list
+	for k := 0; k < c.Pick(120, 1500); k++ {
+		nn := 2 + r.Intn(5)
+		desc := randDesc(c, nn, 3)
+		fit := randFItems(c, desc, 3)
+		ord := r.Perm(nn)
+		if k%3 == 0 {
+			for i := range ord {
+				ord[i] = nn - 1 - i
+			}
+		}
+		c.Call(Event{"op": "Proof", "n": nn, "matched": []int{}, "salt": int(r.Int31n(50000)), "desc": desc, "order": ord, "fitems": fit, "flags": 1 + k%2})
 	}
 	// larger random blocks
 	for k := 0; k < c.Pick(3, 30); k++ {
